@@ -429,12 +429,17 @@ package rlwe
 //@ func GaloisElementsForTrace
 //@   property C11
 //@   let nr = p.ringQ.SubRings[0].NthRoot
-//@   let L = p.logN - 1 - logN
+//@   let LS = p.logN - 1 - logN
+//@   let LC = p.logN - logN
 //@   requires 0 <= logN
-//@   ensures forall(k, 0, L, galEls[k] < nr && cong(galEls[k], pow(GaloisGen, ((1 << (logN + k)) % W) & (nr - 1)), nr))
-//@   ensures implies(logN == 0 && p.ringType == ring.Standard, len(galEls) == L + 1 && galEls[L] == nr - 1)
-//@   ensures implies(!(logN == 0 && p.ringType == ring.Standard), len(galEls) == max(L, 0))
-//@   loop 0 invariant logN <= i && len(galEls) == i - logN && fresh(galEls) && (i <= p.logN - 1 || i == logN)
+// the trace sums over the subgroup generated by 5^(2^logN): in the standard ring the steps 5^(2^i), logN <= i <= LogN-2
+// (and X -> X^-1 for the full trace); in the conjugate-invariant ring (NthRoot = 4N, 5 of order N) the steps
+// logN <= i <= LogN-1 - the last one, 5^(2^(LogN-1)) = 2N+1, is the only one that removes the odd powers (finding F66)
+//@   ensures implies(p.ringType == ring.Standard, forall(k, 0, LS, galEls[k] < nr && cong(galEls[k], pow(GaloisGen, ((1 << (logN + k)) % W) & (nr - 1)), nr)))
+//@   ensures implies(p.ringType == ring.ConjugateInvariant, len(galEls) == max(LC, 0) && forall(k, 0, LC, galEls[k] < nr && cong(galEls[k], pow(GaloisGen, ((1 << (logN + k)) % W) & (nr - 1)), nr)))
+//@   ensures implies(logN == 0 && p.ringType == ring.Standard, len(galEls) == LS + 1 && galEls[LS] == nr - 1)
+//@   ensures implies(logN != 0 && p.ringType == ring.Standard, len(galEls) == max(LS, 0))
+//@   loop 0 invariant logN <= i && len(galEls) == i - logN && fresh(galEls) && (i <= last || i == logN)
 //@   loop 0 invariant? j == i - logN
 //@   loop 0 invariant forall(k, 0, i - logN, galEls[k] < nr && cong(galEls[k], pow(GaloisGen, ((1 << (logN + k)) % W) & (nr - 1)), nr))
 
